@@ -163,3 +163,43 @@ func emitRouteStringCode(repo string) (string, error) {
 		skip: map[string]string{},
 	})
 }
+
+func init() { emitters["BaseTreeCode"] = emitBaseTreeCode }
+
+// Gen/BaseTreeCode.lean: `baseTree` (tree.go) — the matcher every tree inherits: matchLeaf (the leaves in order),
+// matchSubtree (the subtrees in order, the match-all subtree last, then the tree's own match-all leaf), matchNextSegment
+// (cut the next segment off the path). Calls on the interface values in `subtrees` and `leaves` — the children — stand for
+// the model's functions on the children (Code/LibRoute.lean); the bodies here are one level of the recursion.
+func emitBaseTreeCode(repo string) (string, error) {
+	return translateType(repo, codeCfg{
+		pkg:          "./internal/route",
+		recvType:     "baseTree",
+		namespace:    "Flamego.Gen.BaseTreeCode",
+		imports:      []string{"Flamego.Code.GoSem", "Flamego.Code.LibRoute", "Flamego.Code.LibTree"},
+		stringBytes:  true,
+		opaqueFields: true,
+		ptrOption:    true,
+		types: map[string]string{"net/http.Header": "Lib.Header",
+			"github.com/flamego/flamego/internal/route.Leaf": "Lib.Leaf",
+			"github.com/flamego/flamego/internal/route.Tree": "Lib.Tree"},
+		assertId: true,
+		ownArgs:  " E hok",
+		lib: map[string]string{
+			"strings.Index": "Lib.strings_Index",
+			"(github.com/flamego/flamego/internal/route.Tree).getMatchStyle": "Lib.Tree_getMatchStyle",
+			"(github.com/flamego/flamego/internal/route.Leaf).getMatchStyle": "Lib.Leaf_getMatchStyle",
+		},
+		libOut: map[string]string{
+			"(github.com/flamego/flamego/internal/route.Leaf).match":             "Lib.Leaf_match E hok",
+			"(github.com/flamego/flamego/internal/route.Tree).match":             "Lib.Tree_match E",
+			"(github.com/flamego/flamego/internal/route.Tree).matchNextSegment":  "Lib.Tree_matchNextSegment E hok",
+			"(*github.com/flamego/flamego/internal/route.matchAllTree).matchAll": "Lib.Tree_matchAll E hok",
+			"(*github.com/flamego/flamego/internal/route.matchAllLeaf).matchAll": "Lib.Leaf_matchAll hok",
+		},
+		prelude: "variable (E : Flamego.Engine) (hok : Nat → Bool)\n",
+		skip: map[string]string{"Match": "ranges over the parameter map it returns (the percent-decoding of the values: Model/TreeIdx.Node.matchIdx, tied by the correspondence)",
+			"getParent": "returns an interface value", "getSegment": "returns a pointer", "setSubtrees": "a setter", "setLeaves": "a setter",
+			"getSubtrees": "a getter", "getLeaves": "a getter", "hasMatchAllSubtree": "used when routes are added", "hasMatchAllLeaf": "used when routes are added",
+			"getBinds": "a constant", "match": "a constant", "getMatchStyle": "anonymous receiver"},
+	})
+}
